@@ -62,6 +62,7 @@ class World:
             if hit:
                 fail[kind] -= hit
                 fail['fired'] += 1
+                fail['last_kind'] = kind
                 raise HardwareError(f'transient {kind} failure at {sorted(hit)}')
         # hardware that takes only some values (a coarser grid): what it holds afterwards is what both sides show
         coarse = rng.random() < 0.3
@@ -176,6 +177,8 @@ class World:
                     # the injected driver fault surfaced as an error of this operation
                     r.count('struct_driver_faults_surfaced')
                     suspended = True
+                    if not self.readback_failed_consistently(m, members, op, combined, fail, layout, ops, inherited, readonly):
+                        break
                     continue
                 r.violation(f'C18/struct/{layout}/raises/{op}', f'{op} raised {type(e).__name__}: {e}'[:200],
                             {'sub': 'struct', 'combined': combined, 'inherited': inherited, 'readonly': readonly, 'members': members, 'ops': ops})
@@ -183,6 +186,8 @@ class World:
             if fail['fired'] > fired0:
                 r.count('struct_driver_faults_swallowed')    # the operation caught the fault itself (error stored as read error)
                 suspended = True
+                if not self.readback_failed_consistently(m, members, op, combined, fail, layout, ops, inherited, readonly):
+                    break
                 continue
             if suspended:
                 if op not in ('read_struct', 'read_struct_wire'):
@@ -214,6 +219,22 @@ class World:
         r.case(('struct', layout, tuple(o[0] for o in ops)), any(o[0].startswith(('write', 'change', 'assign')) for o in ops))
         if r.want_sample():
             r.sample({'layout': 'struct ' + layout, 'members': members, 'ops': ops[:8]})
+
+    def readback_failed_consistently(self, m, members, op, combined, fail, layout, ops, inherited, readonly):
+        """a member write whose struct write went through but whose read-back failed: the device has taken the value, struct and
+        members both show what the device returned with the write (the error concerns the read-back only)"""
+        if not (combined and op in ('write_member', 'change_member_wire') and fail.get('last_kind') == 'read'):
+            return True
+        r = self.r
+        r.count('struct_member_writes_with_failing_read_back')
+        st = m.ctrl
+        bad = [kk for kk in members if st.get(kk) != getattr(m, 'm_' + kk)]
+        if bad:
+            r.violation(f'C18/struct/{layout}/diverged-after/{op}-with-failing-read-back',
+                        f'after {op} (struct written, read-back failed): struct {dict(st)} but members { {kk: getattr(m, "m_" + kk) for kk in members} }'[:250],
+                        {'sub': 'struct', 'combined': combined, 'inherited': inherited, 'readonly': readonly, 'members': members, 'ops': ops})
+            return False
+        return True
 
     # ------------------------------------------------------------ float / enum pair
     LABELSETS = [(['500uV', '20mV', '1V'], 'V'), (['1mA', '10mA', '100mA', '1A'], 'A'),
